@@ -24,6 +24,9 @@ def run(c):
     c.tlc_mc("Plaintext", "MCPlaintext_canary.cfg", expect=["Complete", "Prefix"])
     c.tlc_mc("Pnet", "MCPnet.cfg")
     c.tlc_mc("Pnet", "MCPnet_canary.cfg", expect=["Complete", "Prefix"])
+    if not c.quick:
+        c.tlc_mc("Plaintext", "MCPlaintext6.cfg", timeout=1500)
+        c.tlc_mc("Pnet", "MCPnet7.cfg", timeout=1500)
     drv = c.build("drv-secure")
     traces, psk = [], None
     if c.replay:
